@@ -23,7 +23,7 @@ RULE = ("one case = one LDAWrapper history: matrix class/inner solver/flags/tole
         "least one solve was answered from the database (reuse hit) or followed an update that discarded a non-empty database")
 PROBES = ["reuse_hit", "adjoint_storage", "conj_mode", "decoupled_dofs", "rows_only_decoupled", "cols_only_decoupled",
           "real_after_complex", "complex_after_real", "x0_nonempty_db", "zero_rhs", "zero_column", "dependent_block",
-          "update_after_solves", "fresh_twin_also_raises", "reuse_judged", "reuse_not_judged_mixed_dtype", "reuse_not_judged_rank",
+          "update_after_solves", "badly_scaled_block", "fresh_twin_also_raises", "reuse_judged", "reuse_not_judged_mixed_dtype", "reuse_not_judged_rank",
           "cholesky_fallback", "two_wrappers", "stored_zeros_fixed_structure"]
 FAULT_KINDS = ["cholesky_fail_forced", "cholesky_fail_natural", "inexact_inner_solver"]
 COMPONENTS = {"real": ["pymoto.solvers.LDAWrapper", "pymoto.solvers.SolverDenseLU/QR/Cholesky/LDL", "pymoto.solvers.SolverSparseLU",
@@ -68,7 +68,8 @@ def gen(rng, idx, tier):
     cplx = bool(rng.random() < 0.4)
     cls = str(rng.choice(G.CLASSES_CPLX if cplx else G.CLASSES_REAL))
     inner = str(rng.choice(INNER_BY_CLASS[cls]))
-    n = int(rng.integers(2, 9)) if rng.random() < 0.8 else int(rng.integers(9, 15))
+    big = tier == "thorough"
+    n = int(rng.integers(2, 9)) if rng.random() < (0.5 if big else 0.8) else int(rng.integers(9, 25 if big else 15))
     sparse = str(rng.choice(["csc", "csc_full"])) if inner == "splu" else (None if inner != "cg" else str(rng.choice(["csc", "none", "csc_full"])))
     if sparse == "none":
         sparse = None
@@ -76,8 +77,8 @@ def gen(rng, idx, tier):
     tol = float(rng.choice([1e-5, 1e-7, 1e-9])) if inner != "cg" else float(rng.choice([1e-5, 1e-7]))
     nwr = 2 if rng.random() < 0.15 else 1
     case = dict(n=n, cls=cls, cplx=cplx, inner=inner, sparse=sparse, flags=flags, tol=tol, nwr=nwr, ops=[])
-    nops = int(rng.integers(3, 16))
-    kinds_enabled = [k for k in ["fresh", "repeat", "scale", "combo", "zero", "depblock", "zerocol", "block"]
+    nops = int(rng.integers(3, 40 if big else 16))
+    kinds_enabled = [k for k in ["fresh", "repeat", "scale", "combo", "zero", "depblock", "zerocol", "block", "scaledblock"]
                      if rng.random() < 0.75] or ["fresh"]
     allow_cplx_rhs = not (sparse is not None and not cplx)   # documented limitation of SuperLU with real matrices
     p_cplx_rhs = float(rng.choice([0.0, 0.3, 0.7])) if allow_cplx_rhs else 0.0
@@ -215,6 +216,14 @@ def build_rhs(op, n, hist, cplx_ok):
         return G.rand_vec(op["seed"], (n, max(2, k)), cplx), "block"
     if kind == "zero":
         return np.zeros(shape, dtype=complex if cplx else float), "zero"
+    if kind == "scaledblock":
+        # load cases of very different magnitude in one block (each column is judged by its own relative residual)
+        v = G.rand_vec(op["seed"], (n, max(2, k)), cplx)
+        j = op["refs"][0] % v.shape[1]
+        v[:, j] *= 10.0 ** (-(3 + op["refs"][1] % 7))
+        if len(hist) and op["refs"][2] % 2:
+            v[:, (j + 1) % v.shape[1]] = hist[op["refs"][2] % len(hist)] * 2.0     # next to a column that is already in the span
+        return v, "scaledblock"
     if kind == "repeat":
         b = hist[op["refs"][0] % len(hist)].copy()
         return b, "repeat"
@@ -376,6 +385,8 @@ def run(case):
             probe("zero_column")
         if kind == "depblock":
             probe("dependent_block")
+        if kind == "scaledblock":
+            probe("badly_scaled_block")
         sym, herm = flags_for(case["cls"], case["cplx"])
         if trans != "N" and not (sym or herm):
             probe("adjoint_storage")
